@@ -136,6 +136,10 @@ func (t *tapRecorder) Run(ctx context.Context) { <-ctx.Done() }
 func (t *tapRecorder) Dispatch(ctx context.Context, sender string, p *packet.Publish) error {
 	t.w.mu.Lock()
 	t.w.goTag[goid()] = tagOf(p.Payload)
+	if _, ok := t.w.dispatchStamp[tagOf(p.Payload)]; !ok {
+		// the publish worker is about to resolve the destinations of this message
+		t.w.dispatchStamp[tagOf(p.Payload)] = atomic.AddInt64(&t.w.stamp, 1)
+	}
 	t.w.mu.Unlock()
 	return nil
 }
@@ -432,6 +436,7 @@ type world struct {
 	restartAt     map[int]int64 // node -> time its process came up again (same id, same data directory)
 	restartQuiet  map[int]bool  // node -> its peers never noticed that it was gone
 	incarn        map[int]int   // node -> number of times its process has been started again
+	dispatchStamp map[string]int64 // payload tag -> stamp at which a publish worker took the message up
 	toldEver      map[[2]int]bool
 }
 
@@ -1070,6 +1075,7 @@ func newWorld(t *testing.T, c *Case, o *Outcome) *world {
 	w.restartAt = map[int]int64{}
 	w.restartQuiet = map[int]bool{}
 	w.incarn = map[int]int{}
+	w.dispatchStamp = map[string]int64{}
 	w.toldEver = map[[2]int]bool{}
 	for i := 0; i < nn; i++ {
 		for j := 0; j < nn; j++ {
